@@ -49,6 +49,25 @@ def _mk_input(case, spec):
     return out
 
 
+def refill(objs, new):
+    """the caller keeps its input containers and writes the next point into them in place; returns the (same) objects,
+    or None if the containers do not match the new values (then fresh objects are used)"""
+    if objs is None or len(objs) != len(new):
+        return None
+    for o, n in zip(objs, new):
+        if type(o) is not type(n):
+            return None
+        a, b = (o.data, n.data) if isinstance(o, UTPM) else (o, n)
+        if a.shape != b.shape or a.dtype != b.dtype or a.ndim == 0:
+            return None
+    for o, n in zip(objs, new):
+        if isinstance(o, UTPM):
+            o.data[...] = n.data
+        else:
+            o[...] = n
+    return objs
+
+
 def _val(v):
     if isinstance(v, Function):
         v = v.x
@@ -142,6 +161,8 @@ def expected_trace(case):
             names += ['lu', 'getitem']
         elif op == 'symvec':
             names += ['transpose', 'add', 'symvec']
+        elif op == 'symvec_raw':
+            names.append('symvec')
         else:
             raise KeyError(op)
     return names
@@ -177,7 +198,12 @@ def prop_replay(case, stats):
         raise Rejected(str(e))
     except Exception as e:
         raise Inconclusive('direct execution failed: %s %s' % (type(e).__name__, str(e)[:100]))
-    # (a) recording
+    # (a) recording  (case['nest']: another graph has been created before and was never switched off)
+    outer = None
+    if case.get('nest'):
+        outer = CGraph()
+        oa = Function(np.array([1.0, 2.0]))
+        ob = algopy.sin(oa)
     cg = CGraph()
     try:
         fins = [Function(x) for x in rec_in]
@@ -197,6 +223,9 @@ def prop_replay(case, stats):
         raise Violation('operations executed after trace_off() were recorded (%d -> %d nodes)' % (n0, len(cg.functionList)))
     if Function.cgraph is not None:
         raise Violation('Function.cgraph is still set after trace_off()')
+    if outer is not None and [f.func.__name__ for f in outer.functionList] != ['Id', 'sin']:
+        raise Violation('a graph created earlier (and never switched off) recorded operations of the program or operations executed '
+                        'while recording was off: %s' % [f.func.__name__ for f in outer.functionList][:8])
     cg2 = CGraph()
     try:
         g = Function(np.array([1.0, 2.0]))
@@ -210,6 +239,7 @@ def prop_replay(case, stats):
     cg.independentFunctionList = fins
     cg.dependentFunctionList = [regs[out]]
     # (b) replays
+    prev_in = None
     for n, rp in enumerate(case['replays']):
         try:
             ref = PG.run(prog, _mk_input(case, rp))
@@ -219,6 +249,14 @@ def prop_replay(case, stats):
             raise Inconclusive('direct execution failed: %s %s' % (type(e).__name__, str(e)[:100]))
         xin = _mk_input(case, rp)
         what = 'replay %d (%s%s via %s)' % (n, rp['kind'], '' if rp['kind'] == 'nd' else ' D=%d P=%d' % (rp['D'], len(rp['idx'])), rp['via'])
+        if rp.get('reuse'):
+            # the caller refills the containers of the previous evaluation in place and passes the same objects again
+            same = refill(prev_in, xin)
+            if same is not None:
+                xin = same
+                what += ' [same input objects, refilled in place]'
+                stats.event('replay:containers-reused')
+        prev_in = xin
         if rp['via'] == 'function':
             res = guard(cg.function, xin)
             if not isinstance(res, list) or len(res) != 1:
@@ -235,12 +273,14 @@ def prop_replay(case, stats):
 
 
 @st.composite
-def eval_spec(draw, pts, K, kinds=('nd', 'utpm'), Dmax=4, plain_dtypes=False):
-    kind = draw(st.sampled_from(list(kinds)))
+def eval_spec(draw, pts, K, kinds=('nd', 'utpm'), Dmax=4, plain_dtypes=False, like=None):
+    """like = an earlier spec: same kind, dtype, D and P (so that the caller's containers can be refilled in place)"""
+    kind = draw(st.sampled_from(list(kinds))) if like is None else like['kind']
     if kind == 'nd':
-        return {'kind': 'nd', 'idx': [draw(st.integers(0, K - 1))], 'dtype': draw(st.sampled_from(['float64', 'float64', 'float32'])) if plain_dtypes else 'float64'}
-    D = draw(st.sampled_from([2, 3, 1, Dmax]))
-    P = draw(st.sampled_from([2, 1, 3]))
+        dt = (draw(st.sampled_from(['float64', 'float64', 'float32'])) if plain_dtypes else 'float64') if like is None else like.get('dtype', 'float64')
+        return {'kind': 'nd', 'idx': [draw(st.integers(0, K - 1))], 'dtype': dt}
+    D = draw(st.sampled_from([2, 3, 1, Dmax])) if like is None else like['D']
+    P = draw(st.sampled_from([2, 1, 3])) if like is None else len(like['idx'])
     idx = [draw(st.integers(0, K - 1)) for _ in range(P)]
     hi = [draw(gen.higher_coeffs((D - 1, P) + p.shape[1:], gen.coeff_elements(1.0))) for p in pts]
     return {'kind': 'utpm', 'D': D, 'idx': idx, 'hi': hi}
@@ -257,9 +297,14 @@ def replay_cases(draw, tier, first=None, families=None, max_len=8, min_len=1):
     nrep = draw(st.integers(1, 4))
     case['replays'] = []
     for _ in range(nrep):
-        rp = draw(eval_spec(pr['pts'], K, plain_dtypes=True))
+        if case['replays'] and draw(st.integers(0, 2)) == 0:
+            rp = draw(eval_spec(pr['pts'], K, plain_dtypes=True, like=case['replays'][-1]))
+            rp['reuse'] = True
+        else:
+            rp = draw(eval_spec(pr['pts'], K, plain_dtypes=True))
         rp['via'] = draw(st.sampled_from(['function', 'pushforward']))
         case['replays'].append(rp)
+    case['nest'] = draw(st.integers(0, 3)) == 0
     return case
 
 
@@ -279,6 +324,10 @@ def _classes(case):
         c.append('replay:%s->%s' % (case['rec']['kind'], r['kind']))
     if any(r['kind'] == 'utpm' and case['rec']['kind'] == 'utpm' and _sig(r) != _sig(case['rec']) for r in case['replays']):
         c.append('replay:other-D-P')
+    if any(r.get('reuse') for r in case['replays']):
+        c.append('replay:same-spec-as-previous')
+    if case.get('nest'):
+        c.append('nested-open-graph')
     c += PG.features(case)
     return c
 
